@@ -43,11 +43,20 @@ class StageError(ValueError):
     pass
 
 
+class EmptyBatchError(Exception):
+    """An exception that happens to be falsy (it carries an empty collection)."""
+
+    def __len__(self):
+        return 0
+
+
 KINDS = (
     "ret",
     "raise_error",
     "raise_failure",
     "raise_skip",
+    "raise_falsy_error",
+    "fail1_falsy",
     "fired",
     "fire1",
     "fire2",
@@ -60,9 +69,9 @@ KINDS = (
     "logerr_flushed",
     "drop_failed",
 )
-DELAY = {"fire1": 1.0, "fire2": 2.0, "fail1": 1.0}
+DELAY = {"fire1": 1.0, "fire2": 2.0, "fail1": 1.0, "fail1_falsy": 1.0}
 DIRTY_RETURN = ("junk", "junk_chain", "logerr", "drop_failed")
-FAILING = ("raise_error", "raise_failure", "raise_skip", "fail1", "failed")
+FAILING = ("raise_error", "raise_failure", "raise_skip", "raise_falsy_error", "fail1_falsy", "fail1", "failed")
 TIMEOUTS = (0.5, 1.0, 1.5, 2.0, 3.5, 100.0)
 
 
@@ -88,6 +97,12 @@ def behave(case, ctx, stage):
         case.fail(stage)
     if k == "raise_skip":
         case.skipTest(stage)
+    if k == "raise_falsy_error":
+        raise EmptyBatchError()
+    if k == "fail1_falsy":
+        d = defer.Deferred()
+        r.callLater(1.0, d.errback, EmptyBatchError())
+        return d
     if k == "fired":
         return defer.succeed(stage)
     if k in ("fire1", "fire2"):
@@ -156,7 +171,7 @@ def _cleanup(case, name):
     return behave(case, case._ctx, name)
 
 
-def model(ncleanups, decisions, timeout):
+def model(ncleanups, decisions, timeout, stage_first_at_tie=False):
     """-> dict(sequence, clean (True/False/None=ambiguous tie), timeout (True/False/None))"""
     dec = dict(decisions)
     seq = ["setUp"]
@@ -164,6 +179,7 @@ def model(ncleanups, decisions, timeout):
     clean = True
     timed_out = False
     pending_logged = 0
+    tie_timeout = False
     planned = ["setUp", "test", "tearDown"] + ["c%d" % i for i in range(ncleanups, 0, -1)]
     out_seq = []
     i = 0
@@ -172,6 +188,8 @@ def model(ncleanups, decisions, timeout):
         st = stages.pop(0)
         out_seq.append(st)
         k = dec.get(st, "ret")
+        if tie_timeout and (k in DELAY or k == "never"):
+            break  # started in the iteration of the timeout, but it will never be waited for
         if k == "never":
             timed_out = True
             clean = False
@@ -183,7 +201,13 @@ def model(ncleanups, decisions, timeout):
                 clean = False
                 break
             if t == timeout:
-                timed_out = None
+                # the stage's Deferred fires at the very instant the timeout elapses: the tie order
+                # (a chooser decision) says which of the two calls the reactor runs first.  Either
+                # way the rest of the chain keeps running within that same reactor iteration until
+                # a stage has to wait again.
+                remaining_sync = all(dec.get(x, "ret") not in DELAY and dec.get(x, "ret") != "never" for x in _following(stages, st, k))
+                if not (stage_first_at_tie and remaining_sync):
+                    tie_timeout = True
         if k == "logerr":
             pending_logged += 1
         elif k == "logerr_flushed":
@@ -192,11 +216,22 @@ def model(ncleanups, decisions, timeout):
             clean = False
         if st == "setUp" and k in FAILING:
             stages = [s for s in stages if s not in ("test", "tearDown")]
+    if tie_timeout:
+        timed_out = True
+        clean = False
     if pending_logged:
         clean = False
     if timed_out is None and clean:
-        clean = None
+        clean = None  # (not reached any more: ties are decided by the recorded tie order)
     return {"sequence": out_seq, "clean": clean, "timed_out": timed_out}
+
+
+def _following(stages, st, k):
+    """Stages that will follow ``st`` (whose behaviour is k) in the model sequence."""
+    rest = list(stages)
+    if st == "setUp" and k in FAILING:
+        rest = [s for s in rest if s not in ("test", "tearDown")]
+    return rest
 
 
 class ForeignObserver:
@@ -245,7 +280,8 @@ def execute(config, chooser):
         # ---- oracle
         names = [e[0] for e in result.log]
         outs = [n for n in names if n in rec.OUTCOMES]
-        m = model(ncleanups, ctx.decisions, timeout)
+        stage_first = any(t[0][0] == "tie" and abs(t[0][1] - timeout) < 1e-6 and t[2] == 1 for t in chooser.trace if isinstance(t[0], tuple))
+        m = model(ncleanups, ctx.decisions, timeout, stage_first_at_tie=stage_first)
         if how[0] != "returned":
             problems.append(("run-raised", "run() raised %r" % (how,)))
         core = [n for n in names if n in ("startTest", "stopTest") or n in rec.OUTCOMES]
